@@ -1,6 +1,6 @@
 (* Props/C03.v -- C03: ciphertext integrity.  Statements only. *)
 From Rpgp Require Import Base.Octets Base.Res Aead.Seipd2 Aead.Seipd2Proofs Aead.Seipd2Integrity
-  Sym.Cfb Sym.CfbProofs Sym.Seipd1Machine Sym.Seipd1MachineProofs.
+  Sym.Cfb Sym.CfbProofs Sym.Seipd1Machine Sym.Seipd1MachineProofs Aead.Seipd2Machine Aead.Seipd2MachineProofs.
 
 (* ---------------- SEIPD v2 ---------------- *)
 
@@ -147,4 +147,23 @@ Print Assumptions C03_v1_machine_clean_end_means_mdc_checked.
 Example C03_ex_v1_machine :
   run_machine (fun x => repeat x5a 8) 8 (fun x => repeat x11 20) None (fun i => i)
     (seipd1_enc (fun x => repeat x5a 8) 8 (fun x => repeat x11 20) (repeat x07 10) [x61; x62; x63]) = ([x61; x62; x63], Clean).
+Proof. vm_compute. reflexivity. Qed.
+
+(* the SEIPD v2 stream decryptor as the machine the code is (one buffer of two encrypted chunks, the
+   opened chunk moved behind the pending input, chunk index and octet count, final tag; consumer
+   requests of any sizes): what it hands out and how it ends is seipd2_stream_dec, for every sequence of
+   request sizes.  The only fact assumed of the AEAD primitive: it opens to 16 octets fewer. *)
+Theorem C03_v2_stream_machine_is_spec :
+  forall open c key iv info, 1 <= c ->
+    (forall k n a x pt, open k n a x = Some pt -> lenN pt + TAGLEN = lenN x) ->
+    forall (req : N -> N) ct,
+      a_run open c key iv info req ct =
+      (fst (seipd2_stream_dec open c key iv info ct), oc_of2 (snd (seipd2_stream_dec open c key iv info ct))).
+Proof. exact a_machine_is_spec. Qed.
+Print Assumptions C03_v2_stream_machine_is_spec.
+
+Example C03_ex_v2_machine :
+  a_run toy_open 4 [] [x01] [x02] (fun i => 1 + i mod 3)
+    (seipd2_enc toy_seal 4 [] [x01] [x02] [x61; x62; x63; x64; x65; x66; x67; x68; x69]) =
+  ([x61; x62; x63; x64; x65; x66; x67; x68; x69], AClean).
 Proof. vm_compute. reflexivity. Qed.
